@@ -8,6 +8,8 @@ registered = {c["property_id"] for c in json.load(open(os.path.join(root, "MANIF
 
 def run_one(meta_path):
     d = json.load(open(meta_path))
+    if d.get("obsolete"):
+        return d["id"], {}
     sdir = os.path.dirname(meta_path)
     work = tempfile.mkdtemp(prefix="seed.", dir="/tmp")
     out = {}
@@ -45,7 +47,8 @@ def main():
             prev.update(out)
             d["caught_by_detail"] = prev
             caught = [f"{k} ({v})" for k, v in prev.items() if v in ("failing-input", "no-failing-input-found")]
-            d["caught_by"] = ", ".join(caught) if caught else "not caught: " + json.dumps(prev)
+            if not d.get("obsolete"):
+                d["caught_by"] = ", ".join(caught) if caught else "not caught: " + json.dumps(prev)
             json.dump(d, open(mp, "w"), indent=1)
             print(mid, out, flush=True)
     # the runs regenerated lean/DxModel/Generated/*.lean from mutated sources: restore the committed tables
